@@ -21,6 +21,19 @@
 (* the statuses handed to the collector), TxnEnd (Commit/Abort: which     *)
 (* connections go back to the cache).                                      *)
 (*                                                                         *)
+(* Two further dimensions of a transaction (round s):                      *)
+(*   plan.quar  the message is put in quarantine (a body-stage check sets   *)
+(*        MsgMetadata.Quarantine) right after the AddRcpt of list position  *)
+(*        quar: remote refuses every later AddRcpt itself (nothing goes on  *)
+(*        the wire) and its body step reports its own refusal for exactly   *)
+(*        the recipients accepted before; target.lmtp does not look at the  *)
+(*        flag.                                                              *)
+(*   "idn_ace" as a supplied address: with "idn" in the same list the two   *)
+(*        differ as given and coincide on the wire of a next hop without    *)
+(*        SMTPUTF8 (target.lmtp only: remote opens one connection per       *)
+(*        domain STRING, so the two never share a connection there, and the *)
+(*        model has one connection per next hop - remote lists leave it out)*)
+(*                                                                         *)
 (* Deviations (constant Devs), DESIGN section 6 row 8:                    *)
 (*   "RcptConverted"   smtpconn.C.Rcpt records the address it put on the  *)
 (*        wire (ASCII-converted) and remote reports statuses under it.    *)
@@ -39,6 +52,7 @@ CONSTANTS Kinds,     \* subset of {"remote", "lmtp"}
           DropSet,   \* LMTP: numbers of per-recipient answers after which the connection may break
           SrcSet,    \* body source / transfer faults: "ok", "noopen", "readfail", "reset"
           LateSet,   \* list positions whose RCPT reply may arrive only after command_timeout (0 = never)
+          QuarSet,   \* list positions after whose AddRcpt the message may be put in quarantine (0 = never)
           Devs, Gen
 
 VARIABLES cfg, k, pc, lst, plan, idx, acc, used, touched, dead, pooled, rec, devs, obs, hist
@@ -52,7 +66,8 @@ NoneD == [d \in Doms |-> FALSE]
 EmptyD == [d \in Doms |-> <<>>]
 Ext(f, D, dflt) == [x \in D |-> IF x \in DOMAIN f THEN f[x] ELSE dflt]
 
-Lists == UNION {[1..n -> RcptSet] : n \in 1..MaxList}
+RcptsOf(kind) == IF kind = "remote" THEN RcptSet \ {"idn_ace"} ELSE RcptSet
+Lists(kind) == UNION {[1..n -> RcptsOf(kind)] : n \in 1..MaxList}
 
 (* fault plans for a recipient list, irrelevant entries fixed to "ok" / no drop *)
 NoDrop == 3
@@ -62,15 +77,17 @@ Plans(kind, l) ==
       StS == IF kind = "lmtp" THEN [RS -> {"ok", "temp", "perm"}] ELSE {<<>>}
       DrS == IF kind = "lmtp" THEN (DropSet \cap (0..(Len(l) - 1))) \cup {NoDrop} ELSE {NoDrop}
       base == { [mail |-> Ext(m, Doms, "ok"), rcpt |-> Ext(rc, Given, "ok"),
-                 data |-> Ext(da, Doms, "ok"), st |-> Ext(s, Given, "ok"), drop |-> dr, src |-> "ok", late |-> 0] :
+                 data |-> Ext(da, Doms, "ok"), st |-> Ext(s, Given, "ok"), drop |-> dr, src |-> "ok", late |-> 0,
+                 quar |-> 0] :
                   m \in [DS -> {"ok", "temp"}], rc \in [RS -> {"ok", "perm"}], da \in [DS -> DataSet], s \in StS,
                   dr \in DrS }
       \* transport faults are explored on top of plans whose MAIL / DATA replies are positive
       clean == { [mail |-> [d \in Doms |-> "ok"], rcpt |-> Ext(rc, Given, "ok"), data |-> [d \in Doms |-> "ok"],
-                  st |-> Ext(s, Given, "ok"), drop |-> NoDrop, src |-> "ok", late |-> 0] :
+                  st |-> Ext(s, Given, "ok"), drop |-> NoDrop, src |-> "ok", late |-> 0, quar |-> 0] :
                    rc \in [RS -> {"ok", "perm"}], s \in StS }
   IN base \cup {[p EXCEPT !.src = x] : p \in clean, x \in SrcSet \ {"ok"}}
           \cup {[p EXCEPT !.late = n] : p \in clean, n \in LateSet \cap (1..Len(l))}
+          \cup {[p EXCEPT !.quar = n] : p \in clean, n \in QuarSet \cap (1..Len(l))}
 
 H(e) == IF Gen THEN Append(hist, e) ELSE hist
 
@@ -117,13 +134,18 @@ LmtpStart(res) ==
      ELSE pc' = "idle" /\ k' = k + 1 /\ lst' = <<>> /\ plan' = <<>> /\ idx' = 0 /\ obs' = ObsTxnEnd(obs)
   /\ UNCHANGED <<cfg, acc, used, touched, dead, pooled, rec, devs, hist>>
 
+(* remote.AddRcpt refuses a quarantined message itself, before anything goes on the wire *)
+QRefused == cfg.kind = "remote" /\ plan.quar > 0 /\ idx > plan.quar
+(* the body step of remote finds the message in quarantine *)
+QBody == cfg.kind = "remote" /\ plan.quar > 0
 RcptD(r) == IF cfg.kind = "lmtp" THEN "D1" ELSE Dom(r)
 (* the RCPT command for list position idx goes out and its reply comes too late *)
-IsLate(r) == plan.late = idx /\ ~dead[RcptD(r)] /\ ~(r = "nl" /\ ~cfg.utf8)
+IsLate(r) == plan.late = idx /\ ~QRefused /\ ~dead[RcptD(r)] /\ ~(r = "nl" /\ ~cfg.utf8)
              /\ (cfg.kind = "lmtp" \/ used[Dom(r)] \/ plan.mail[Dom(r)] = "ok")
 RcptRes(r) ==
   LET d == Dom(r) IN
-  IF cfg.kind = "remote" /\ ~used[d] /\ plan.mail[d] = "temp" THEN "temp"   \* connectionForDomain: MAIL refused
+  IF QRefused THEN "perm"
+  ELSE IF cfg.kind = "remote" /\ ~used[d] /\ plan.mail[d] = "temp" THEN "temp"   \* connectionForDomain: MAIL refused
   ELSE IF r = "nl" /\ ~cfg.utf8 THEN "perm"                                  \* cannot be converted
   ELSE IF dead[RcptD(r)] THEN "temp"                                         \* the connection was closed
   ELSE IF IsLate(r) THEN "temp"                                              \* time-out: smtpconn closes the connection
@@ -132,6 +154,8 @@ RcptRes(r) ==
 AddRcpt(r, res) ==
   /\ pc = "rcpt" /\ idx <= Len(lst) /\ r = lst[idx] /\ res = RcptRes(r)
   /\ LET d == IF cfg.kind = "lmtp" THEN "D1" ELSE Dom(r) IN
+       IF QRefused THEN UNCHANGED <<touched, used, acc, dead>>
+       ELSE
        /\ touched' = [touched EXCEPT ![d] = TRUE]
        /\ used' = [used EXCEPT ![d] = @ \/ cfg.kind = "lmtp" \/ plan.mail[d] = "ok"]
        /\ acc' = IF res = "ok" THEN [acc EXCEPT ![d] = Append(@, r)] ELSE acc
@@ -169,7 +193,12 @@ LmtpStatuses(D) ==
   ELSE [i \in 1..Len(a) |-> IF i <= plan.drop THEN [k |-> LKey(D, a[i]), v |-> plan.st[a[i]]]
                                                ELSE [k |-> a[i], v |-> "fail"]]
 
-Exp(D) == IF cfg.kind = "lmtp" THEN LmtpStatuses(D) ELSE ConnStatuses(D, "D1") \o ConnStatuses(D, "D2")
+(* quarantined: remote's own refusal for every recipient IT accepted in this transaction, as given *)
+QuarStatuses == LET a == acc["D1"] \o acc["D2"] IN [i \in 1..Len(a) |-> [k |-> a[i], v |-> "fail"]]
+
+Exp(D) == IF cfg.kind = "lmtp" THEN LmtpStatuses(D)
+          ELSE IF QBody THEN QuarStatuses
+          ELSE ConnStatuses(D, "D1") \o ConnStatuses(D, "D2")
 Expected == Exp(Devs)
 
 SameBag(a, b) == /\ Len(a) = Len(b)
@@ -200,7 +229,7 @@ TxnEnd ==
          keep(d) == IF ~touched[d] THEN pooled[d]
                     ELSE IF ~used[d] THEN FALSE                       \* MAIL refused: closed
                     ELSE IF dead[d] \/ plan.src \in {"readfail", "reset"} THEN FALSE
-                    ELSE IF ran /\ plan.src = "noopen" THEN TRUE        \* nothing was sent: RSET, cached
+                    ELSE IF ran /\ (plan.src = "noopen" \/ QBody) THEN TRUE   \* nothing was sent: RSET, cached
                     ELSE IF ran THEN acc[d] # <<>> /\ plan.data[d] = "ok"
                     ELSE TRUE                                          \* aborted before DATA: RSET, cached
      IN /\ pooled' = IF cfg.kind = "lmtp" THEN NoneD ELSE [d \in Doms |-> keep(d)]
@@ -221,7 +250,7 @@ Finish ==
 Silent == NoBody
 
 Next ==
-  \/ (pc = "idle" /\ k < MaxTxns /\ \E l \in Lists : ChooseList(l))
+  \/ (pc = "idle" /\ k < MaxTxns /\ \E l \in Lists(cfg.kind) : ChooseList(l))
   \/ (pc = "plan" /\ \E p \in Plans(cfg.kind, lst) : ChoosePlan(p))
   \/ (pc = "start" /\ \E res \in {"ok", "temp"} : LmtpStart(res))
   \/ (pc = "rcpt" /\ idx <= Len(lst) /\ \E res \in {"ok", "temp", "perm"} : AddRcpt(lst[idx], res))
